@@ -179,6 +179,14 @@ def run(ctx):
                 s = directed_stream(rng, name, direction, last=t)
                 if s[1]:
                     check_streams(ctx, rep, name, direction, [s])
+    # MANY frames in one read (a pipelining master, a burst after a stall): 40 short frames, whole and in a few pieces
+    for name in framelib.STREAM_FRAMERS:
+        for direction in ('req', 'resp'):
+            uid, frames, msgs = gen_stream(rng, name, direction, 60)
+            short = [(f, m) for f, m in zip(frames, msgs) if len(f) <= 24][:40]
+            if len(short) >= 20:
+                check_streams(ctx, rep, name, direction, [(uid, [f for f, _ in short], [m for _, m in short])])
+                rep.hist['many-frames-stream:%s:%s' % (name, direction)] += 1
     # the largest legal frames, two per stream
     for name in framelib.STREAM_FRAMERS:
         for direction in ('req', 'resp'):
